@@ -24,7 +24,7 @@ SO = {"threads": 1, "time_limit": 20}
 
 FLOWCLS = W.FD + W.ERR
 KINDS = ["non_string_nodes", "cyclic_for_dag", "no_source", "no_sink", "negative_weight", "missing_weight", "non_conserving", "constraint_absent_edge",
-         "constraint_not_list", "constraint_empty", "constraint_not_tuples", "constraint_edge_as_list", "k_zero_superset", "k_negative_superset", "coverage_zero", "coverage_negative", "coverage_above_one", "k_zero", "k_negative",
+         "constraint_not_list", "constraint_empty", "constraint_not_tuples", "constraint_edge_as_list", "k_zero_superset", "k_negative_superset", "coverage_zero", "coverage_negative", "coverage_above_one", "coverage_nan", "k_zero", "k_negative",
          "weight_type_str", "weight_type_complex", "weight_type_bool", "weight_type_subclass", "origin_unknown", "unknown_start", "unknown_end", "scale_above_one", "scale_negative", "ignore_malformed",
          "plr_mismatch", "plf_float", "empty_graph"]
 
@@ -137,7 +137,7 @@ def mutate(kind, cls, inst, meta, rng):
             if not sp["edges"]:
                 return None
             kw[ckey] = [[[sp["edges"][0][0], sp["edges"][0][1]]]]
-        kw[ckey + "_coverage"] = {"coverage_zero": 0, "coverage_negative": -0.5, "coverage_above_one": 1.5}[kind]
+        kw[ckey + "_coverage"] = {"coverage_zero": 0, "coverage_negative": -0.5, "coverage_above_one": 1.5, "coverage_nan": float("nan")}[kind]
     elif kind == "k_zero":
         kw["k"] = 0
     elif kind == "k_negative":
@@ -361,6 +361,20 @@ def run_case(case):
             out = run_model(cls, single.copy(), kw); obs["c19.converse_judged"] += 1
             if out["exc"] is not None:
                 viol.append({"sig": f"C19/in-domain-input-raises/{cls}/{out['exc']}/single-edge", "msg": f"{out['exc']}: {out.get('msg')}"})
+        # the number-of-paths optimiser with each stopping criterion on an instance that is explained exactly from the first feasible k on
+        Ge = nx.DiGraph()
+        for u, v, f in (("s", "a", 3), ("a", "t", 3), ("s", "b", 2), ("b", "t", 2)):
+            Ge.add_edge(u, v, flow=f)
+        for crit in ({"stop_on_first_feasible": True}, {"stop_on_delta_abs": 1}, {"stop_on_delta_rel": 0.1}):
+            for mt in (fp.kMinPathError, fp.kLeastAbsErrors):
+                r = M.safe_call(fp.NumPathsOptimization, model_type=mt, max_num_paths=4, G=Ge.copy(), flow_attr="flow", weight_type=int, solver_options=dict(SO), **crit)
+                out = ("ctor", r[1], r[2]) if r[0] != "ok" else None
+                if out is None:
+                    s_ = M.safe_call(r[1].solve)
+                    out = ("solve", s_[1], s_[2]) if s_[0] != "ok" else None
+                obs["c19.converse_judged"] += 1
+                if out is not None:
+                    viol.append({"sig": f"C19/in-domain-input-raises/NumPathsOptimization/{out[1]}/{list(crit)[0]}", "msg": f"{out[1]}: {out[2]} at {out[0]} with model_type={mt.__name__} {crit}"})
         # explicit None for the option dictionaries (several docstrings give None as the default)
         Gn = nx.DiGraph(); Gn.add_edge("a", "b", flow=2); Gn.add_edge("b", "c", flow=2); Gn.add_edge("a", "c", flow=1)
         for cls in W.ALL:
